@@ -209,6 +209,32 @@ def _predicates(ctx):
                          '%s argument around the exact boundary' % kind,
                          outcomes, {t: grid_t, s: secs, NOW: (BASE,)},
                          oracle, hooks=[_hook])
+            if kind == 'datetime':
+                # datetimes in named zones on both sides of DST changes
+                # (wall-clock arithmetic on them is not UTC arithmetic)
+                import zoneinfo
+                ny = zoneinfo.ZoneInfo('America/New_York')
+                lon = zoneinfo.ZoneInfo('Europe/London')
+                for now_v, walls in (
+                        (dt.datetime(2021, 3, 14, 7, 0, 0),
+                         [dt.datetime(2021, 3, 14, h, m, tzinfo=ny)
+                          for h, m in ((1, 30), (1, 59), (3, 0), (3, 30),
+                                       (4, 0))]),
+                        (dt.datetime(2021, 11, 7, 6, 0, 0),
+                         [dt.datetime(2021, 11, 7, h, m, tzinfo=ny,
+                                      fold=fd)
+                          for h, m in ((0, 30), (1, 0), (1, 30), (2, 0))
+                          for fd in (0, 1)]),
+                        (dt.datetime(2021, 3, 28, 1, 0, 0),
+                         [dt.datetime(2021, 3, 28, h, m, tzinfo=lon)
+                          for h, m in ((0, 30), (2, 0), (2, 30))])):
+                    grid_compare(rep, 'R12.2', '%s[%s]' % (fname, kind),
+                                 'named-zone datetimes across a DST change',
+                                 outcomes,
+                                 {t: tuple(walls), NOW: (now_v,),
+                                  s: (0, 1800, 3600, 5400, 7200, -1800,
+                                      -3600)},
+                                 oracle, hooks=[_hook])
             if kind == 'datetime' and not soon:
                 # clock overridden close to the ends of the representable
                 # range: the comparison must still be exact
@@ -380,7 +406,8 @@ def _override(ctx):
                 return world.func_attrs['utcnow'].get('override_time')
             outcomes, _i = extract(world, thunk3,
                                    setup=_setup(extra, stub_now=False))
-            amounts = (0, 1, -1, 0.000001, 86400.5, 1e9)
+            amounts = (0, 1, -1, 0.000001, 86400.5, 1e9, -0.5, 7.25, -7.25,
+                       -0.000001, 1.75, -86400.5, 0.1, -0.1)
             grid = {OVERRIDE: instants[:3],
                     arg: tuple(mk(a) for a in amounts) if mk else amounts}
 
